@@ -969,7 +969,8 @@ func genC15(w *bufio.Writer, rng *hx.Rng, tier string) {
 // ---------------------------------------------------------------- real pipeline (trace cases)
 //
 //	c15.pipe <nprocs> <negate> <max> <startRe> <contRe> <chain> <nstreams> stream…
-//	    chain  = string over {v, j} with exactly one j: the action chain; j = the real join,
+//	    chain  = string over {v, j, J} with exactly one j or J: the action chain; j = the real join,
+//	             J = the real join with the match condition k = "y" (match_fields, mode and),
 //	             v = a scripted verdict action: it discards the event iff character <position in
 //	             the chain> of the event's "v" field is 'D' (field or character absent = pass)
 //	    stream = <sourceID> <streamName> <n> item…
@@ -1216,10 +1217,10 @@ func execC15Pipe(t *hx.Toks) string {
 	contRe := string(t.Bytes())
 	chain := t.Next()
 	nstreams := t.Int()
-	if t.Err != nil || nprocs < 1 || nprocs > 8 || strings.Count(chain, "j") != 1 || strings.Trim(chain, "vj") != "" {
+	if t.Err != nil || nprocs < 1 || nprocs > 8 || strings.Count(chain, "j")+strings.Count(chain, "J") != 1 || strings.Trim(chain, "vjJ") != "" {
 		return "bad-case"
 	}
-	jpos := strings.IndexByte(chain, 'j')
+	jpos := strings.IndexAny(chain, "jJ")
 	sre, err1 := regexp.Compile(startRe)
 	cre, err2 := regexp.Compile(contRe)
 	if err1 != nil || err2 != nil {
@@ -1336,7 +1337,14 @@ func execC15Pipe(t *hx.Toks) string {
 			})
 			continue
 		}
+		// `J`: the join carries the match condition k = "y" (match_fields, mode and): an idle join
+		// is skipped by events that fail it, a busy join still gets every event of its stream
+		var conds pipeline.MatchConditions
+		if chain[pos] == 'J' {
+			conds = pipeline.MatchConditions{{Field: []string{"k"}, Values: []string{"y"}}}
+		}
 		p.AddAction(&pipeline.ActionPluginStaticInfo{
+			MatchConditions: conds,
 			PluginStaticInfo: &pipeline.PluginStaticInfo{
 				Type: "join",
 				Factory: func() (pipeline.AnyPlugin, pipeline.AnyConfig) {
@@ -1372,45 +1380,29 @@ func execC15Pipe(t *hx.Toks) string {
 		}
 		return false
 	}
-	busy := func(tag int) bool {
-		r, ok := rec.lastRes[tag]
-		return ok && (r == pipeline.ActionHold || r == pipeline.ActionCollapse)
-	}
 	stuck := false
 	var wg sync.WaitGroup
 	for tag, st := range streams {
 		wg.Add(1)
-		go func(tag int, st c15PipeStream) {
+		go func(_ int, st c15PipeStream) {
 			defer wg.Done()
-			fed := 0
 			for k, it := range st.items {
 				if it.pause {
-					// quiet = everything fed so far went through Do and no run is open
-					if !deadline(10*time.Second, func() bool { return rec.doneEv[tag] == fed && !busy(tag) }) {
+					// quiet = no event is in the pipeline any more (every event fed so far was finalized:
+					// committed or dropped; an open run was closed by the stream time-out)
+					if !deadline(10*time.Second, func() bool { n, _ := pipeline.VerifPipelinePool(p); return n == 0 }) {
 						stuck = true
 					}
 					continue
 				}
 				input.In(pipeline.SourceID(st.source), "src"+strconv.Itoa(st.source), pipeline.NewOffsets(int64(k+1), nil), it.tree.JSON())
-				if it.reaches {
-					fed++
-				}
 			}
 		}(tag, st)
 	}
 	wg.Wait()
 	// the end: every event seen, no run open (pending runs are closed by the stream time-out),
 	// and everything that was sent on has arrived at the output
-	done := deadline(15*time.Second, func() bool {
-		n := 0
-		for tag := range streams {
-			n += rec.doneEv[tag]
-			if busy(tag) {
-				return false
-			}
-		}
-		return n == nevents && rec.nout == rec.wantOut
-	})
+	done := deadline(15*time.Second, func() bool { n, _ := pipeline.VerifPipelinePool(p); return n == 0 })
 	p.Stop()
 	end := "ok"
 	if !done || stuck {
@@ -1476,7 +1468,7 @@ func genC15Pipe(w *bufio.Writer, rng *hx.Rng, tier string) {
 		// the join alone, or with scripted verdict actions before / after it: an event discarded
 		// upstream never reaches the join (the run goes on across it), a joined event discarded
 		// downstream (verdict of its start line) must vanish without disturbing the next run
-		chain := []string{"j", "jv", "jv", "jv", "vj", "vjv", "vjv", "jvv"}[rng.Intn(8)]
+		chain := []string{"j", "jv", "jv", "jv", "vj", "vjv", "vjv", "jvv", "J", "Jv", "Jv", "vJ", "vJv", "J"}[rng.Intn(14)]
 		fmt.Fprintf(w, "c15.pipe %d %s %d %s %s %s %d", nprocs, hx.B(c.negate), c.max, hx.Enc([]byte(c.startRe)), hx.Enc([]byte(c.contRe)), chain, nstreams)
 		id := 0
 		used := map[string]bool{}
@@ -1509,13 +1501,18 @@ func genC15Pipe(w *bufio.Writer, rng *hx.Rng, tier string) {
 					obj.Obj = append(obj.Obj, jt.F("log", v))
 				}
 				obj.Obj = append(obj.Obj, jt.F("stream", jt.S(name)), jt.F("id", jt.Nu(strconv.Itoa(id))))
+				if strings.Contains(chain, "J") && !rng.Chance(1, 4) {
+					obj.Obj = append(obj.Obj, jt.F("k", jt.S("y"))) // three quarters satisfy the join's condition
+				} else if strings.Contains(chain, "J") && rng.Chance(1, 3) {
+					obj.Obj = append(obj.Obj, jt.F("k", jt.S("n")))
+				}
 				_, isStr, val := c15Field(obj, c.path)
 				if len(chain) > 1 && !rng.Chance(1, 8) {
 					// verdict per chain position; start lines are discarded downstream more often
 					vb := []byte(strings.Repeat("P", len(chain)))
 					for k := range vb {
 						den := 6
-						if isStr && c.sre.MatchString(val) && k > strings.IndexByte(chain, 'j') {
+						if isStr && c.sre.MatchString(val) && k > strings.IndexAny(chain, "jJ") {
 							den = 2
 						}
 						if chain[k] == 'v' && rng.Chance(1, den) {
